@@ -1132,7 +1132,8 @@ WHITE_SPACE = set(chr(c) for c in (list(range(0x09, 0x0e)) + [0x20, 0x85, 0xa0, 
 def case_safe(s):
     """Characters whose full case mapping was compared between python and the
     VM (see test_lynative.py): ASCII, Latin-1, Latin Extended-A, basic Greek
-    and Cyrillic, kana, CJK ideographs, emoji."""
+    (without capital and final sigma, whose lowering depends on context) and
+    Cyrillic, general punctuation, CJK symbols, kana, CJK ideographs, emoji."""
     for c in s:
         o = ord(c)
         if o < 0x180:
@@ -1141,7 +1142,7 @@ def case_safe(s):
             continue
         if 0x400 <= o < 0x460:
             continue
-        if 0x3040 <= o < 0x3100 or 0x4e00 <= o < 0xa000 or 0x1f300 <= o < 0x1f650:
+        if 0x2000 <= o < 0x2070 or 0x3000 <= o < 0x3100 or 0x4e00 <= o < 0xa000 or 0x1f300 <= o < 0x1f650:
             continue
         return False
     return True
